@@ -231,7 +231,9 @@ def _descends_when_written_here(prog, t):
     if len(rec) != 1 or vexpr(f, rec[0].args[0]) != 'arg2':
         return False
     gs = _g.guard_set(prog, f, rec[0].bb)
-    pat = lambda op, fld: any(re.match(r'^%s\(tuple\(span\(arg2\),span\(arg1\.0\)\)\.0\.%s,tuple\(span\(arg2\),span\(arg1\.0\)\)\.1\.%s\)$' % (op, fld, fld), g) for g in gs)
+    comp = {'eq': 'ne', 'ge': 'lt', 'le': 'gt'}      # the same test written as the negation of its complement (early return instead of nested if)
+    body = lambda op, fld: r'%s\(tuple\(span\(arg2\),span\(arg1\.0\)\)\.0\.%s,tuple\(span\(arg2\),span\(arg1\.0\)\)\.1\.%s\)' % (op, fld, fld)
+    pat = lambda op, fld: any(re.match('^' + body(op, fld) + '$', g) or re.match(r'^!\(' + body(comp[op], fld) + r'\)$', g) for g in gs)
     return len(gs) == 3 and pat('eq', 'file') and pat('ge', 'start') and pat('le', 'end')
 
 def r_typeref(r, prog):
